@@ -11,10 +11,22 @@ CLAIMED = {
   text="Inductive step, decided by the SAT solver for all values within the bounds: from every reachable in-memory state with at most two live entries (ids (u8,u8), payload 0..3 bytes), each public write (vote, append, commit, user data, truncate, purge) through the real RaftLog operation (journal append, state machine, log state) agrees with a reference in-memory Raft log on accept/reject, on the resulting state and live index, and `read` of every range returns exactly the model's entries. Thorough adds the two-step truncate-then-re-append-with-lower-term shape.",
   note="Assumes: chunk rotation cut (the split decision is a ghost flag; its effect is checked in C11), default cache limits (no eviction), pre-state characterisation of reachable states written in kani_support/model.rs (a too-weak characterisation could only cause a false alarm, a too-strong one hides states), BTreeMap replaced by a 4-slot sorted array, ghost file system; not covered: more than 3 live entries, multi-entry append calls, read_buffer_size, closed-chunk reads (C07).",
   tech=TECH + "differential harness against a reference model, inductive step over symbolic pre-states", ref="C01"),
+ "C02": dict(
+  text="Decided by the SAT solver for all values within the bounds, on the real RaftLog::open (directory listing, Chunk::open, RecordIterator, the record codec, RaftLogStateMachine::apply, cache boundary, reopen_last_closed / OpenChunk::create): for directories of one or two chunk files holding 2..5 records of every kind (shapes concrete: vote/append/commit, append-append-truncate-reappend with any legal term, append-append-purge, a non-empty state snapshot at a non-zero offset, two chained chunks; every id, vote, payload byte and user datum symbolic, constrained to be a history the reference log accepts), the reopened store's state, live index and resident payloads equal the reference log after the same records, the healthy last chunk is reused and the journal continues at its end, on_disk_size spans the retained chunks, no file is modified; one further append after the restart agrees with the reference log and is journalled right after the replayed bytes. Thorough: the same directory opened with a one-item cache reads the evicted entry back from the closed chunk's file.",
+  note="The statement is decided by composition: (i) what a flushed store has on disk is the encoding of its accepted records in order with a state snapshot at each chunk head (C11 step harnesses, C04 for 'flushed'), (ii) the codec round-trips (C12), (iii) THIS check: replaying such files reproduces the reference state. The composition itself (write, flush, close, open in one symbolic run) is outside the bound: one real operation costs 30-60 s of symbolic execution and a flush needs the worker thread. Images are laid down byte-wise by kani_support::image (layout proved equal to the real encoder's in C12) with checksum value 0 (Hasher::update stubbed) - checksum verification itself is C09/C12. Instantiation RTypes (ids (u8,u8), payload 0..3 equal bytes, padded in memory, see DESIGN 3.5); std BufReader replaced by a pass-through reader; Config accessors answered from ghost constants; io::Error::kind() answered from ghost state (DESIGN 3.4). Bounds: <= 2 chunk files, <= 5 records per file, <= 3 live entries, 96-byte files.",
+  tech=TECH + "the real RaftLog::open executed on symbolic chunk-file images (concrete record shapes, symbolic values) and compared with a reference model", ref="C02"),
+ "C03": dict(
+  text="Recovery side, decided for all values within the bounds: on every crash image in the family of C05/C10 (complete records followed by a torn record, a zero-filled tail or nothing, in the newest chunk of one or two) the opened store's state and entries are exactly those of the complete records - a prefix of the writes issued; no partially written record becomes visible (the torn record's content is arbitrary symbolic bytes up to the cut), every record completely present before the cut is replayed (none dropped). Together with C04 (an Ok callback implies all bytes journalled before that flush are written and covered by a successful sync of their file, so they are in every later crash image) this is the statement; the composition is an argument on paper.",
+  note="Claimed as the conjunction of c05_*/c10_* harness results re-read under this property's oracle (tag prop=C03 harnesses are the RaftLog::open-level ones: torn tail with state comparison). Not encoded: a single run containing writes, a flush acknowledgement, a crash and a recovery (needs the worker thread and a crash model of the page cache - unsynced bytes may be lost or reordered by the kernel; the harness family assumes a crash image is a per-file prefix, which is what ext4 ordered mode gives for appends; data=writeback zero-filled tails are C10's zero-tail harnesses). Same image/stub base as C02.",
+  tech=TECH + "the real RaftLog::open on symbolic crash images compared with the reference model of the complete prefix", ref="C03"),
  "C04": dict(
   text="Decided by the SAT solver for all values within the bounds, on the real worker loop FlushWorker::run_inner (with sync_all_files, handle_non_flush_request): for each request script shape from the caller's grammar (flush -> Write[,RemoveChunks]; rotation -> [tail Write,] AppendFile; shapes of 1..4 requests quick, 5 thorough) and EVERY batching schedule of that shape (which try_recv calls see the next request), with symbolic file head lengths/offsets and up to two write/fdatasync failures at symbolic positions: an Ok callback implies that every byte journalled at or before that flush is written and covered by a successful sync of its file (ghost truth, not the worker's bookkeeping); callbacks fire at most once and in request order; without a failure every callback fires exactly once with Ok and the whole script is consumed. Plus the unit harnesses of sync_all_files over 1..3 tracked files (never forgets a file whose sync has not succeeded - the defect fixed in /repo 6ae0d32).",
   note="Sequentialised model: the caller's requests are built at the moment the worker receives them (ghost channel script mode), batching is an enumerated bit mask, data lengths are concrete (0,1,2), I/O goes to a ghost file system whose write/sync may fail symbolically; Vec::with_capacity is stubbed to Vec::new (run_inner pre-allocates 1024 slots). Not covered: real thread interleavings inside a caller operation (argued on paper: the worker shares only the channel, the cache boundary and done_seq with the caller), scripts longer than 5 requests, short writes, that the caller emits exactly this grammar (checked for purge/flush/rotation in C08/C11 harnesses).",
   tech=TECH + "the worker loop run on scripted requests with enumerated batching schedules and symbolic I/O fault injection; ghost-truth monitors inside the callback and unlink stubs", ref="C04"),
+ "C05": dict(
+  text="Decided by the SAT solver for all values within the bounds, on the real RaftLog::open over crash images (what completed file operations can leave: each chunk file a prefix of what was written to it): a newest chunk torn inside its last record (first byte / middle / last byte missing; one or two chunk files) opens, shows exactly the state of the complete records, is cut back durably (set_len + successful sync), is not reused for appending, a fresh chunk file is created exactly at the recovered end, and a further append is accepted and agrees with the reference log; a newest chunk file with NO complete record (empty, cut inside its head snapshot, also as the only file of a fresh directory) is discarded and the previous chunk continues the journal (the panic fixed in /repo 5a57fa8 was found here). Oracle includes Kani's panic/overflow/bounds checks over the whole of open ('recovery never panics'). The cut positions of every record kind at Chunk::open level are C10's harnesses.",
+  note="KNOWN FINDING reported on every run: KF-C05-rotation-gap (rotation creates and fills the new chunk file before the old chunk's tail is queued; that crash image is refused with 'Gap between chunks'). Which crash images are reachable is an argument on paper (DESIGN C05): the caller writes only in OpenChunk::create, the worker appends to the newest file and syncs oldest-first (C04), unlinks oldest-first after the purge is durable (C08). Not covered: a second restart in the same run, flush after recovery (needs the worker), more than two files, crash inside set_len. Same image/stub base as C02.",
+  tech=TECH + "the real RaftLog::open executed on symbolic crash images; known-finding twin harness for the rotation gap", ref="C05"),
  "C06": dict(
   text="Decided for all values within the bounds: from every reachable in-memory state with at most two live entries, a vote / append / commit / truncate whose arguments the sequential specification rejects returns Err and leaves the log state, live index, cache statistics and content, journal buffer, record offsets and worker queue exactly as before (so flush + restart replays an unchanged journal).",
   note="Assumes the same pre-state characterisation and cuts as C01. The restart half of the statement is by composition with the unchanged journal (not encoded: RaftLog::open replay). One-entry append calls only.",
@@ -24,13 +36,13 @@ CLAIMED = {
   note="Not covered: crash points between unlinks (the oldest-first order is what makes every crash image a gap-free suffix), completeness over whole histories ('once flushed and idle every obsolete chunk is gone' is checked for one purge step), real thread interleavings. Trusted: ghost file system, unlink contract, the sequentialised worker model of C04.",
   tech=TECH + "worker loop on scripted requests with ghost-truth unlink monitor + store-level purge/flush step harness + handler unit harness", ref="C08"),
  "C09": dict(
-  text="Lemmas decided for all values within the bounds: (L1) the real WALRecord decoder reports UnexpectedEof only when the input is exhausted, for arbitrary content of full-length Commit/Vote frames and for unknown record types (so damage inside a complete record is never taken for a torn tail by the decoder itself); (L2) Chunk::handle_record_error classifies a non-EOF, non-zero tail as an error for every tail content.",
-  note="NOT covered: the assembly in Chunk::open / RaftLog::open (BufReader path out of reach), flips that change a length/Option tag so that the decoder legitimately runs to end of file (pre-existing weakness, known finding KF-C09 by reading), missing middle chunk, 'other files untouched'. This is a partial, unit-level claim.",
-  tech=TECH + "decoder lemma over symbolic byte buffers + unit harness of the error classifier", ref="C09"),
+  text="Decided for all values within the bounds, with the real CRC-32: (a) on the real Chunk::open over a four-record chunk, one byte of a complete record altered by an arbitrary non-zero mask - id bytes, payload byte, every byte of the checksum field, (thorough) every byte of the type word - in a record in the middle of the chunk and in the last record (value bytes): open returns an error and does not touch the file; (b) on the real RaftLog::open, a chunk file missing in the middle of the journal (gap of any size 1..10^6): open fails and no file is modified; (c) lemmas: the decoder reports UnexpectedEof only when the input is exhausted, handle_record_error never classifies a non-EOF non-zero tail as truncatable.",
+  note="KNOWN FINDINGS reported on every run: KF-C09-eof-absorbed (an alteration in the LAST record that makes the decoder want more bytes than the file holds is taken for a torn tail and silently cut away) and KF-C09-nonnewest-truncated (a refused open has already cut the incomplete tail off an older chunk). The main harnesses cover the complement: alterations that do not change a record's length, and structural alterations in non-last records. Not covered: alterations in the head snapshot's Option tags (explodes the decoder's path count), two altered bytes, reading an altered entry through Chunk::read_record after open (pread path). Same image/stub base as C02, checksums real.",
+  tech=TECH + "the real Chunk::open / RaftLog::open on images with one byte altered by a symbolic mask, real CRC-32; known-finding twin harnesses", ref="C09"),
  "C10": dict(
-  text="Unit-level decision logic of tail recovery, decided for all values within the bounds: verify_trailing_zeros is true iff every byte of a symbolic tail (0..6 bytes at any offset) is zero; handle_record_error turns a decode error into 'truncate here' iff truncation is enabled and the error is UnexpectedEof or the tail is all zero, and refuses otherwise (never truncates with the flag off); RecordIterator::next recovers a complete record that ends exactly at the end of the file with its exact segment, then stops, and reports every cut position inside a record as an incomplete record exactly once.",
-  note="NOT covered: the assembly of these pieces in Chunk::open (set_len to the last good offset, BufReader) and RaftLog::open continuing after recovery; zero tails longer than 6 bytes; known finding KF-C10 (cut inside the first record of a chunk -> Chunk::last_segment panics in open) found by reading, outside the encoded units. Trusted: pread/metadata stubs.",
-  tech=TECH + "unit harnesses over a byte-carrying ghost file", ref="C10"),
+  text="Decided for all values within the bounds, on the real Chunk::open (RecordIterator, codec, handle_record_error, verify_trailing_zeros, set_len + sync_all) over a chunk of three complete records followed by a fourth of every kind (SaveVote, Append, TruncateAfter(None|Some), PurgeUpto, State): cut at EVERY byte position inside the fourth record (quick: vote, state and append subsets; thorough: all kinds, all positions) open succeeds, returns exactly the three complete records with their exact offsets and contents, cuts the file back to their end durably and records the truncation; a zero-filled tail of 3, 4, 9 or 20 bytes (real CRC) likewise; with truncation disabled every such image makes open fail and leaves the file untouched; a complete chunk is returned whole and unmodified. At RaftLog::open level: a torn tail with truncation disabled is refused and nothing in the directory is touched or created (the enabled case, the fresh chunk after the cut and the write that follows are C05's harnesses). Plus the unit lemmas of handle_record_error / verify_trailing_zeros / RecordIterator.",
+  note="Bounds: four records, 96-byte files, ids (u8,u8); checksum value 0 in the cut harnesses (a torn record never reaches its checksum), real CRC in the zero-tail harnesses. Zero tails longer than 20 bytes and cuts in chunks with more records are outside the bound (the code has no dependence on the number of preceding records beyond the offsets vector). Same image/stub base as C02.",
+  tech=TECH + "the real Chunk::open executed on symbolic chunk images for every cut position / tail length (concrete enumeration of positions, symbolic contents)", ref="C10"),
  "C11": dict(
   text="Decided for all values within the bounds: one accepted append/commit from any reachable state and any journal position returns a segment that starts at the previous journal end, whose size is exactly the bytes journalled, advances the journal end by that size and on_disk_size accordingly; the chunk-full decision equals (records >= limit or size >= limit) for all limits including 0 and 1; a rotation closes the old chunk under its id, names the new chunk by the old chunk's end, starts it with the state at rotation, creates that file and queues old tail before new file.",
   note="NOT covered: file-name encoding for all u64 (format!/parse under CBMC did not finish; the repo's unit test pins u64::MAX), multi-step histories, bytes on disk after the worker ran, limits' effect over several writes.",
@@ -54,10 +66,7 @@ CLAIMED = {
 }
 
 NA = {
- "C02": "needs RaftLog::open replaying chunk files: every record byte then travels through BufReader's heap buffer, the decoder's control flow becomes symbolic at every record and CBMC's symbolic execution exhausts memory (measured; DESIGN.md §Limits). The parts within reach are claimed elsewhere: journal bookkeeping (C11), codec round trip (C12); replay uses the same StateMachine::apply as the live path.",
- "C03": "crash images + recovery need RaftLog::open/Chunk::open (out of reach, see C02) and the worker loop FlushWorker::run_inner (symbolic execution did not terminate in any encoding tried); only the unit-level lemmas in C04 and C10 could be decided.",
- "C05": "same dependency on RaftLog::open/Chunk::open and on caller/worker interleavings as C03; the suspected defects (rotation creates the new chunk file before the old tail is queued; empty newest chunk panics in open) were found by reading, not by a check.",
- "C07": "needs caller/worker interleavings plus reads from closed chunks through the file system; the worker loop and Chunk::read_record-through-open are out of reach. The two unit lemmas that could be decided live in C15 (nothing above the boundary is evicted) and C04 (boundary advances only after older files are synced). A violation found by reading (id-valued boundary after truncate + lower-term re-append) is documented in DESIGN.md with a native demonstration, not claimed as a check.",
+ "C07": "the statement quantifies over background-worker progress (data buffered, in flight, written, synced, evicted) and concurrent readers: it needs caller/worker interleavings with real reads in between, i.e. the worker loop (verifiable only on scripted requests, C04) composed with store-level reads (each 30-60 s of symbolic execution) - out of reach as one check. Decided pieces that bear on it live under other ids: nothing above the boundary is evicted (C15), the boundary advances only after older files are synced (C04 unit harnesses), an entry evicted under a one-item cache is read back correctly from a closed chunk file after reopen (C02 thorough harness c02_two_chunks_small_cache). A violation found by reading (id-valued boundary after truncate + lower-term re-append: live entries of the OPEN chunk become evictable and unreadable) is documented in DESIGN.md section 6 with a native demonstration; it is not claimed as a check because reaching it needs worker progress between two caller operations.",
  "C14": "decided by thread lifetime and struct-field drop order (detached worker thread, _dir_lock dropped before wal): Kani has no model of std::thread, and any sequential criterion would also reject a correct join-on-drop repair.",
 }
 
@@ -87,7 +96,7 @@ def main():
         "setup_cmd": "bin/setup",
         "hooks": {
             "guard": "kani",
-            "enable": "no hook is committed to /repo: every check rsyncs /repo's working tree to a scratch copy under /var/tmp, appends #[cfg(kani)] harness modules, substitutes two imports (std BTreeMap -> fixed slot array, std mpsc -> ghost channel) there, and runs `cargo kani` (which sets --cfg kani) on the scratch copy; see bin/overlay.py",
+            "enable": "no hook is committed to /repo: every check rsyncs /repo's working tree to a scratch copy under /var/tmp, appends #[cfg(kani)] harness modules, substitutes three std types (BTreeMap -> fixed slot array, mpsc -> ghost channel, io::BufReader -> pass-through reader) there, and runs `cargo kani` (which sets --cfg kani) on the scratch copy; see bin/overlay.py",
             "baseline_off_cmd": "cd /repo && cargo test --workspace --no-fail-fast --offline",
             "source_commits": [],
             "add_only": True,
